@@ -50,18 +50,18 @@ pub fn run(prop: Prop, tier: Tier, seed: u64) -> i32 {
     let mut jobs: Vec<Job> = Vec::new();
     // volumes per property and tier -------------------------------------------------------------
     let (walks, synth_jobs, synth_n, ep_jobs, ep_n) = match (prop, tier) {
-        (Prop::C01, Tier::Quick) => (400, 32, 1500, 16, 1500),
-        (Prop::C01, Tier::Thorough) => (6000, 160, 6000, 64, 6000),
-        (Prop::C02, Tier::Quick) => (400, 32, 1500, 16, 1500),
-        (Prop::C02, Tier::Thorough) => (6000, 160, 6000, 64, 6000),
-        (Prop::C04, Tier::Quick) => (600, 0, 0, 0, 0),
-        (Prop::C04, Tier::Thorough) => (12000, 0, 0, 0, 0),
-        (Prop::C05, Tier::Quick) => (400, 32, 1000, 16, 500),
-        (Prop::C05, Tier::Thorough) => (6000, 160, 4000, 64, 2000),
-        (Prop::C06, Tier::Quick) => (200, 16, 1000, 0, 0),
-        (Prop::C06, Tier::Thorough) => (3000, 64, 4000, 0, 0),
-        (Prop::C13, Tier::Quick) => (300, 32, 1000, 16, 1000),
-        (Prop::C13, Tier::Thorough) => (5000, 160, 5000, 64, 5000),
+        (Prop::C01, Tier::Quick) => (3000, 64, 3000, 32, 2000),
+        (Prop::C01, Tier::Thorough) => (40000, 640, 6000, 160, 6000),
+        (Prop::C02, Tier::Quick) => (3000, 64, 3000, 32, 2000),
+        (Prop::C02, Tier::Thorough) => (40000, 640, 6000, 160, 6000),
+        (Prop::C04, Tier::Quick) => (6000, 0, 0, 0, 0),
+        (Prop::C04, Tier::Thorough) => (100000, 0, 0, 0, 0),
+        (Prop::C05, Tier::Quick) => (3000, 64, 2000, 32, 1000),
+        (Prop::C05, Tier::Thorough) => (40000, 640, 4000, 160, 3000),
+        (Prop::C06, Tier::Quick) => (1500, 32, 2000, 0, 0),
+        (Prop::C06, Tier::Thorough) => (20000, 256, 4000, 0, 0),
+        (Prop::C13, Tier::Quick) => (800, 48, 1500, 24, 1500),
+        (Prop::C13, Tier::Thorough) => (12000, 480, 5000, 160, 5000),
     };
     let policies = [Policy::Mixed, Policy::Tactical, Policy::Uniform, Policy::Race, Policy::Shuffle, Policy::Tactical];
     for i in 0..walks {
@@ -90,13 +90,13 @@ pub fn run(prop: Prop, tier: Tier, seed: u64) -> i32 {
             from += chunk;
         }
         jobs.push(Job::C06KingPairs);
-        let rj = tier.pick(32, 256);
+        let rj = tier.pick(96, 1024);
         for i in 0..rj {
             jobs.push(Job::C06Random { n: 20_000, stream: 300_000 + i as u64 });
         }
     }
     if prop == Prop::C05 {
-        let tj = tier.pick(16, 128);
+        let tj = tier.pick(64, 640);
         for i in 0..tj {
             jobs.push(Job::C05Transpositions { n: 300, stream: 400_000 + i as u64 });
             jobs.push(Job::C05Flips { n: 300, stream: 500_000 + i as u64 });
